@@ -205,11 +205,15 @@ def sx_headers(hs) -> str:
 
 
 def figure_payload(fig) -> str:
-    from rtflite.figure import rtf_read_figure
-
-    datas, formats = rtf_read_figure(fig.figures)
+    # the files' bytes and picture types are INPUT data: read here independently of the library's own reader, so that a defect
+    # in that reader (truncation, text mode, a stale cache) is a disagreement and not a shared belief
+    kinds = {".png": "png", ".jpg": "jpeg", ".jpeg": "jpeg", ".emf": "emf"}
+    figs = fig.figures if isinstance(fig.figures, (list, tuple)) else [fig.figures]
     items = []
-    for data, fmt in zip(datas, formats, strict=True):
+    for path in figs:
+        with open(str(path), "rb") as fh:
+            data = fh.read()
+        fmt = kinds[os.path.splitext(str(path))[1].lower()]
         items.append(sx_list([sx_str(fmt), "[" + " ".join(str(b) for b in data) + "]"]))
     w = fig.fig_width if isinstance(fig.fig_width, list) else [fig.fig_width]
     h = fig.fig_height if isinstance(fig.fig_height, list) else [fig.fig_height]
